@@ -102,6 +102,7 @@ class Landing:
         self.stalled = False                # the child blocked for good before reaching point k (e.g. persistent worker waiting for input)
         self.labels = []
         self.sim.point_hook = self.hook
+        self.sim.idle_hooks.append(self.on_idle)
         self.sim.deadlock_hooks.append(self.on_deadlock)
 
     def _select(self, a):
@@ -109,7 +110,9 @@ class Landing:
             return a.kind == "thread" and a.pid == self.sim.main.pid
         return a.kind == "process-main"
 
-    def hook(self, a, label):
+    def hook(self, a, label, async_ok=True):
+        if not async_ok and self.action != "kill":
+            return
         if self.actor is None:
             if not self._select(a):
                 return
@@ -135,11 +138,15 @@ class Landing:
             finally:
                 a.hold = False
 
-    def on_deadlock(self):
+    def on_idle(self):
+        """Nobody else can run right now: the parked child goes on (it is not frozen, merely slower than the rest)."""
         if self.landed and not self.released and self.actor is not None and self.actor.state == "blocked" and self.actor.what == "landing-hold":
             self.released = True
             self.released_by_deadlock = True
             return True
+        return False
+
+    def on_deadlock(self):
         m = self.sim.main
         if not self.landed and not self.stalled and m.state == "blocked" and m.what == "wait-landing":
             self.stalled = True
